@@ -227,4 +227,16 @@ PROPS = {
         assumptions=["z3 sound", "PyVC encoding", "A-DB: sqlite DDL is transactional inside BEGIN..COMMIT, durable at once outside; COMMIT is atomic"],
         not_decided="(b), (c), (d) and every crash point outside apply_migrations",
     ),
+    "C08": dict(
+        design_ref="DESIGN.md 7 C08",
+        technique="contract-based deductive verification (PyVC + z3) of exception safety at two places where non-BadCommand exceptions arose (parse() around _parse, _p_date around datetime.date); seeded grammar-mutation oracle for totality (bounded)",
+        category="other",
+        text="Proved: IMAPClientCommand.parse lets nothing but BadCommand subclasses escape even when the recursive descent raises RecursionError (recorded fix), and _p_date turns every token that matches the date grammar but is not a calendar date "
+             "into BadSyntax instead of ValueError (recorded fix; _p_date_time likewise, bounded only). The bounded oracle runs ~60 sentences covering every command and a few hundred to a few thousand seeded mutations through the real parser and "
+             "demands that only BadCommand escapes.",
+        note="Very partial: the ~70 _p_* functions are abstracted by one assumed contract; faithfulness of the produced AST (escapes, literals, INBOX exactness, sections, sets) and whole-grammar agreement with RFC 3501 are NOT decided "
+             "(DESIGN F21, F23 remain suspected). Known finding F20: trailing data after a complete command is ignored (pinned by the repository's own tests).",
+        assumptions=["z3 sound", "PyVC encoding", "_p_* functions raise only BadCommand subclasses or RecursionError (bounded evidence)", "A-RE/datetime contracts as listed"],
+        not_decided="(b) (known finding F20), (c), (d), (e), (f)",
+    ),
 }
